@@ -106,3 +106,16 @@ Definition pev_sets_exit (e : pev) : bool :=
   | _ => false
   end.
 Definition exit_code (t : list pev) : nat := if existsb pev_sets_exit t then 1 else 0.
+
+(* ---------- the CLI around the engine (cli/commands/run/executor.py: into_event_stream, _execute) ----------
+   An exception escaping the engine in the main thread becomes a FatalError event; the output handler prints it and
+   aborts (click.Abort -> exit code 1); a handler that raises aborts the run as well. *)
+Inductive cli_ev := CEngine (e : pev) | CFatalError | CHandlerRaises.
+
+Definition cli_engine_events (l : list cli_ev) : list pev :=
+  flat_map (fun x => match x with CEngine e => [e] | _ => [] end) l.
+
+Definition cli_aborts (x : cli_ev) : bool := match x with CFatalError | CHandlerRaises => true | _ => false end.
+
+Definition cli_exit_code (l : list cli_ev) : nat :=
+  if existsb cli_aborts l then 1 else exit_code (cli_engine_events l).
